@@ -331,14 +331,16 @@ def rsaPkcs1Verify (H : Mac.Hash) (pre : Bytes) (k : RsaPub) (prehashed : Bool) 
   | some m, some em => decide (m < 256 ^ klen) && i2osp m klen == em
   | _, _ => false
 
-/-- the library's "basic" padding 00 ‖ FF ‖ D at the top of the modulus length (not a standard) -/
+/-- the library's "basic" padding (not a standard): the integer FF ‖ D, i.e. 00 … 00 ‖ FF ‖ D in the modulus length -/
+def basicEncode (d : Bytes) (klen : Nat) : Option Bytes :=
+  if klen < d.length + 2 then none else some (List.replicate (klen - d.length - 1) 0 ++ [0xff] ++ d)
+
 def rsaBasicVerify (H : Mac.Hash) (k : RsaPub) (prehashed : Bool) (msg sig : Bytes) : Bool :=
   if prehashed ∧ msg.length ≠ H.outLen then false else
   let klen := (bitLen k.n + 7) / 8
-  let d := if prehashed then msg else H.h msg
-  match rsavp1 k sig with
-  | some m => klen ≥ d.length + 2 && i2osp m klen == [0x00, 0xff] ++ List.replicate (klen - d.length - 2) 0 ++ d
-  | none => false
+  match rsavp1 k sig, basicEncode (if prehashed then msg else H.h msg) klen with
+  | some m, some em => decide (m < 256 ^ klen) && i2osp m klen == em
+  | _, _ => false
 
 /-- consistency of a generated key pair (primality of p, q is checked separately) -/
 def rsaKeyOk (n e d p q dp dq qi : Nat) : Bool :=
